@@ -13,7 +13,7 @@ ALGS = ["SSIcov", "SSIdat", "SSIcov_MS", "SSIdat_MS", "pLSCF", "pLSCF_MS"]
 REQUIRED_MONITORS = [f"sound+complete@{a}.run" for a in ALGS] + [f"one-NaN-pattern@{a}.run" for a in ALGS] + ["conj-injection@run", "HC_conj(function)", "sound+complete@SSIcov.run(calc_unc)"]
 CRIT = ["conj", "xi", "mpc", "mpd", "cov"]
 ALL_STATES = [f"fails {c} alone" for c in CRIT] + ["fails several", "passes all", "conj=False keeps orphan", "ordmin > 0"]
-REQUIRED_STATES = ["criteria given as numpy scalars / 0-d arrays / integers", "same instance re-run with relaxed criteria", "ordmin > 0", "fails xi alone", "fails mpc alone", "fails mpd alone", "fails cov alone", "fails conj alone", "passes all", "conj=False keeps orphan",
+REQUIRED_STATES = ["pole tables with more than 4096 slots", "criteria given as numpy scalars / 0-d arrays / integers", "same instance re-run with relaxed criteria", "ordmin > 0", "fails xi alone", "fails mpc alone", "fails mpd alone", "fails cov alone", "fails conj alone", "passes all", "conj=False keeps orphan",
                    "relaxed mpd_lim in [0.5, 1.2] with mpc_lim = 0", "mpd_lim = 0", "mpc_lim = 1", "result tables re-examined after plotting with freqlim", "same instance run twice with the same criteria",
                    "limits a relative 1e-6 beside the indicators of existing poles"]
 RULE = ("noisy responses of systems with complex non-proportional shapes, high model orders (many spurious, negatively damped and real poles); a first "
@@ -41,6 +41,8 @@ def _cases(tier, seed):
     out = []
     for k in range(n):
         out.append({"cls": "adaptive_thresholds", "alg": ALGS[k % len(ALGS)], "k": k})
+    # tables with thousands of pole slots (SSI order 66, pLSCF order 33): whatever is done in blocks or batches has to reach the last slot
+    out += [{"cls": "adaptive_thresholds", "alg": a_, "k": 900 + j_, "large": True} for j_, a_ in enumerate(["SSIcov", "pLSCF"] if tier == "quick" else ALGS)]
     out += [{"cls": "calc_unc", "k": k} for k in range(4 if tier == "quick" else 40)]
     out += [{"cls": "conj_injection", "alg": ["SSIcov", "pLSCF", "SSIdat", "SSIcov_MS", "pLSCF_MS", "SSIdat_MS"][k % 6], "k": k} for k in range(ninj)]
     out += [{"cls": "hc_conj_function", "k": k} for k in range(nfn)]
@@ -293,9 +295,12 @@ def run_adaptive(ctx, case, rng, calc_unc=False):
     extra["ordmin"] = int(rng.choice([0, 0, 3, 6]))
     if extra["ordmin"]:
         ctx.state("ordmin > 0")
+    if case.get("large"):
+        extra.update(ordmax=33) if alg.startswith("pLSCF") else extra.update(ordmax=66, br=18)
+        ctx.state("pole tables with more than 4096 slots")
     if calc_unc:
         extra.update(calc_unc=True, nb=int(rng.choice([10, 20])), br=6, method="cov_mm")
-    elif alg in ("SSIcov", "SSIdat") and rng.random() < 0.5:
+    elif alg in ("SSIcov", "SSIdat") and rng.random() < 0.5 and not case.get("large"):
         extra["ref_ind"] = [0, 2]
     if alg.startswith("pLSCF"):
         extra["method_SD"] = "per" if rng.random() < 0.6 else "cor"
